@@ -97,15 +97,21 @@ func (cc *clientCxn) queueStateChange(newState cxnState, eventData any) {
 // request connection close
 func (cc *clientCxn) RequestClose() {
 	cc.mu.Lock()
-	defer cc.mu.Unlock()
-
-	if !cc.closing {
+	first := !cc.closing
+	if first {
 		cc.closing = true
 		if cc.waiting {
 			// in a blocking read, close the socket
 			cc.cxn.Close()
 		}
 		cc.queueStateChange(csTerminate, nil)
+	}
+	cc.mu.Unlock()
+
+	if first {
+		// a command that is blocked on this connection must stop waiting, so
+		// that it no longer competes for elements pushed later
+		cc.cs.unblock("UNBLOCKED connection closed", true)
 	}
 }
 
